@@ -17,6 +17,8 @@ from harness.session import Session
 
 PROP = "C10"
 LEVEL = "exploration"
+TECHNIQUE = 'closed-form geometry oracle on interpreter-reconstructed vertices + icontract postcondition on PathTracer._filter_segments'
+LEVEL_TEXT = 'Held on constructively valid requests for all nine shapes, both directions and distance modes, three resolution decades.'
 RULE = ("one valid tracer request per case, built constructively (arc/arc_radius/circle/spline/"
         "helix/thread/spiral/polyline/parametric), random start incl. non-origin XY and Z, both "
         "directions, both distance modes, resolutions over three decades; non-trivial = request "
